@@ -231,6 +231,8 @@ def options_present(chk, eng):
 
 
 def run(chk):
+    from .common import per_instance_state_of_modules
+    per_instance_state_of_modules(chk, "C20.classes.state_is_per_instance", ['lambda_service'])   # no object created in a class body: instances share no mutable state through the class
     eng = Engine(hooks=codec_hooks())
     chk.assume("A: ms / 1000 in from_unix_millis is exact (a float division; datetime.fromtimestamp rounds to microseconds); to_unix_millis is integer arithmetic (C20.timestamp.exact_millis)")
     chk.assume("S: datetime.fromtimestamp(t, tz=UTC).timestamp() == t; datetimes are timezone-aware (instants compared)")
